@@ -160,7 +160,7 @@ fn make_args(cfg: &Cfg, source: &str) -> Args {
     a.downlink_log = if cfg.dlog { Some(format!("{}.dlog", source)) } else { None };
     // -l: main() installs the logger once per process, before the reader starts; the harness does the same
     a.error_log = if cfg.elog { Some(std::env::temp_dir().join(format!("sqh-{}.elog", std::process::id())).to_string_lossy().to_string()) } else { None };
-    if cfg.elog {
+    if cfg.elog && std::env::var("SQH_DEBUG_LOG").is_err() {
         static ONCE: std::sync::Once = std::sync::Once::new();
         let path = a.error_log.clone().unwrap();
         ONCE.call_once(|| { let _ = squitterator::initialize_logger(&path); });
@@ -338,6 +338,13 @@ fn main() {
             };
             *lp.lock().unwrap() = format!("{} @ {}", msg, loc);
         }));
+    }
+    // SQH_DEBUG_LOG=1 (with RUST_LOG in the environment): install the -l logger before anything is decoded, as
+    // `squitterator -l <file>` started with RUST_LOG=debug does; every log macro argument is then evaluated
+    if std::env::var("SQH_DEBUG_LOG").is_ok() {
+        let path = std::env::temp_dir().join(format!("sqh-{}.dbglog", std::process::id()));
+        let _ = squitterator::initialize_logger(path.to_str().unwrap());
+        let _ = std::fs::remove_file(&path);      // the open handle keeps working; nothing is left behind
     }
     let ops = BufReader::new(std::fs::File::open(&argv[1]).expect("ops file"));
     let mut out = std::io::BufWriter::new(std::fs::File::create(&argv[2]).expect("out file"));
